@@ -122,6 +122,15 @@ namespace ratio
                             }
 
                             std::vector<std::pair<lit, double>> choices;
+                            if (c_mcs.size() == 1)
+                            { // a single atom exceeds the capacity: the only way out is moving it onto another resource..
+                                expr a_tau = c_mcs.front()->get(TAU);
+                                if (var_item *a_tau_itm = dynamic_cast<var_item *>(&*a_tau))
+                                    if (auto a_vals = get_solver().enum_value(a_tau_itm); a_vals.count(const_cast<item *>(rr)))
+                                        if (get_solver().get_sat_core().value(get_solver().get_ov_theory().allows(a_tau_itm->ev, *const_cast<item *>(rr))) == Undefined)
+                                            choices.emplace_back(!get_solver().get_ov_theory().allows(a_tau_itm->ev, *const_cast<item *>(rr)), 1l - 1l / static_cast<double>(a_vals.size()));
+                            }
+                            else
                             for (const auto &as : combinations(std::vector<atom *>(c_mcs.cbegin(), c_mcs.cend()), 2))
                             {
                                 arith_expr a0_start = as[0]->get(RATIO_START);
@@ -360,6 +369,23 @@ namespace ratio
 
     void reusable_resource::rr_flaw::compute_resolvers()
     {
+        if (overlapping_atoms.size() == 1)
+        { // a single atom exceeds the capacity of some resource: it can only be kept away from such resources..
+            atom *atm = *overlapping_atoms.cbegin();
+            expr a_tau = atm->get(TAU);
+            if (var_item *a_tau_itm = dynamic_cast<var_item *>(&*a_tau))
+            {
+                arith_expr amount = atm->get(REUSABLE_RESOURCE_USE_AMOUNT_NAME);
+                for (const auto &val : get_solver().enum_value(a_tau_itm))
+                {
+                    arith_expr capacity = static_cast<item *>(val)->get(REUSABLE_RESOURCE_CAPACITY);
+                    if (get_solver().arith_value(amount) > get_solver().arith_value(capacity))
+                        add_resolver(*new forbid_resolver(*this, *atm, *static_cast<item *>(val)));
+                }
+            }
+            return;
+        }
+
         const auto cs = combinations(std::vector<atom *>(overlapping_atoms.cbegin(), overlapping_atoms.cend()), 2);
         for (const auto &as : cs)
         {
